@@ -29,6 +29,13 @@ SPELL = {
     "addr": lambda: pt.Addr(GOOD_ADDR), "meth": lambda: pt.MethodSignature("f()void"),
     "tb": lambda: pt.Tmpl.Bytes("TMPL_B"), "bq": lambda: pt.Bytes('q"\\\n;//'),
 }
+RANK_POOL = {
+    "s0": lambda: pt.Int(0), "s1": lambda: pt.Int(1), "s2": lambda: pt.Int(2), "s3": lambda: pt.Int(3),
+    "s5": lambda: pt.Int(5), "s127": lambda: pt.Int(127), "L128": lambda: pt.Int(128), "L1000": lambda: pt.Int(1000),
+    "T": lambda: pt.Tmpl.Int("TMPL_X"), "E": lambda: pt.OnComplete.DeleteApplication,
+    "ba": lambda: pt.Bytes("a"), "bb": lambda: pt.Bytes("b"), "bc": lambda: pt.Bytes("base16", "63"), "bd": lambda: pt.Bytes("d"),
+    "be": lambda: pt.Bytes("e"), "bf": lambda: pt.Bytes("base64", "Zg=="), "bT": lambda: pt.Tmpl.Bytes("TMPL_Y"),
+}
 INTS = ["i0", "i1", "i127", "i128", "imax", "optin", "pay", "ti"]
 BYTES = ["ba", "b16", "b64", "b32", "be", "be16", "addr", "meth", "tb", "bq"]
 
@@ -172,6 +179,20 @@ def _build_meta(meta):
                         steps.append(pt.Pop(pt.Bytes("base16", "%04x" % i)))
             return pt.Seq(*steps, pt.Int(1))
         return b
+    if d == "rank":
+        # constants in a given frequency order: the i-th name is used FREQS[i] times, so its rank in the
+        # frequency-sorted block is exactly i (ties keep first-use order)
+        names, freqs = meta["names"], meta["freqs"]
+
+        def b():
+            steps = []
+            for rnd in range(max(freqs)):
+                for k, nm in enumerate(names):
+                    if freqs[k] > rnd:
+                        e = RANK_POOL[nm]()
+                        steps.append(pt.Pop(e))
+            return pt.Seq(*steps, pt.Int(1))
+        return b
     if d == "ctrl":
         return lambda: rb.build(meta["recipe"], rb.Cfg(6, "A"), "gput")
     raise AssertionError(d)
@@ -183,7 +204,7 @@ def _worker(items, base):
     for meta in items:
         d = meta["driver"]
         inputs = basic[:1] if d == "seq" else (basic if d == "ctrl" else basic[:1])
-        check_pair(_build_meta(meta), _VERSIONS if d != "many" else (6,), out, meta, inputs, size=meta.get("size", 1))
+        check_pair(_build_meta(meta), _VERSIONS if d not in ("many", "rank") else (6,), out, meta, inputs, size=meta.get("size", 1))
         out["counters"]["states"] = out["counters"].get("states", 0) + 1
         out["counters"]["transitions"] = out["counters"].get("transitions", 0) + meta.get("size", 1)
     if items and base % 4999 == 0:
@@ -213,6 +234,16 @@ def run(tier):
     for kk in ks:
         for kind in ("big", "small", "bytes"):
             items.append({"driver": "many", "k": kk, "kind": kind, "size": kk})
+    # frequency-rank driver: every ordering of 7 int constants (small / >=128 / template / named) and of 7 byte
+    # constants over the frequency profile (4,4,3,3,2,2,2), plus profiles with ties and singletons
+    int_pool = ["s0", "s1", "s2", "s3", "s5", "L1000", "T"]
+    int_pool2 = ["s1", "s127", "L128", "E", "s5", "T", "L1000"]
+    byte_pool = ["ba", "bb", "bc", "bd", "be", "bf", "bT"]
+    profiles = [(4, 4, 3, 3, 2, 2, 2)] if tier == "quick" else [(4, 4, 3, 3, 2, 2, 2), (2, 2, 2, 2, 2, 2, 2), (3, 3, 3, 3, 2, 2, 1)]
+    for prof in profiles:
+        for pool in (int_pool, int_pool2, byte_pool):
+            for names in itertools.permutations(pool):
+                items.append({"driver": "rank", "names": list(names), "freqs": list(prof), "size": 7})
     g = gen_ctrl.Grammar()
     for n, b in g.programs(2 if tier == "quick" else 3):
         if not gen_ctrl.has_unreachable(b):
